@@ -16,7 +16,9 @@ Hypotheses are decidable predicates: `validKey ty maxLen v`, `orderSafe a b`, `v
 Where the code does NOT have the intended property the negation is proved on a concrete
 witness: `negzero_encodes_differently`, `nan_order_violated`, `nan_compare_irreflexive`,
 `timestamp_order_violated_outside_nano_range`, `nullable_empty_varchar_decodes_null`,
-`nullable_empty_blob_decodes_null`, `txmd_readable_extra_makes_bytes_panic`.
+`nullable_empty_blob_decodes_null`.  The store decoders no longer have such a witness: after the
+repairs of `extraAttribute.deserialize` / `TxHeader.ReadFrom` the former one is the theorem
+`txmd_readable_is_serializable` (+ `txmd_readFrom_no_panic`, `txheader_readFrom_no_panic`).
 -/
 import ImmuModel.Sql.Proofs.KeyMain
 import ImmuModel.Sql.Proofs.ValueRT
@@ -285,14 +287,44 @@ theorem txheader_roundtrip (h : TxHdr) (hw : h.wf = true) :
     ∃ bs, hdrBytes h = .ok bs ∧ hdrReadFrom bs = .ok h.norm :=
   hdr_roundtrip_aux h hw
 
+/-- **The store decoders never panic.** `TxMetadata.ReadFrom` and `TxHeader.ReadFrom` return a value
+or an error on every byte string (the `Fault.panic` outcomes of the models — `b[i:]` beyond the
+buffer after a lying `extra` length, `b[i:]`/`Uint64` on a version-1 header with a short tail —
+are excluded by the length checks of `extraAttribute.deserialize` and `TxHeader.ReadFrom`). -/
+theorem txmd_readFrom_no_panic (bs : Bytes) : txmdReadFrom bs ≠ .error .panic := by
+  have h := txmdReadFrom_spec bs
+  cases hr : txmdReadFrom bs with
+  | ok md => simp
+  | error f => rw [hr] at h; simpa [OkWf] using h
+
+theorem txheader_readFrom_no_panic (bs : Bytes) : hdrReadFrom bs ≠ .error .panic :=
+  hdrReadFrom_noPanic bs
+
+/-- **Whatever `TxMetadata.ReadFrom` accepts is within the API limits and round-trips**: the value
+is well formed (`extra` of at most `maxExtraLen` bytes), `Bytes()` serialises it without panic and
+`ReadFrom` of those bytes gives the same value again. -/
+theorem txmd_readable_is_serializable (bs : Bytes) (md : TxMd) (h : txmdReadFrom bs = .ok md) :
+    md.wf = true ∧ ∃ out, txmdBytes md = .ok out ∧ txmdReadFrom out = .ok md := by
+  have hs := txmdReadFrom_spec bs
+  rw [h] at hs
+  have hw : md.wf = true := by simpa [OkWf] using hs
+  obtain ⟨out, h1, _, _, h4⟩ := txmd_roundtrip_aux md hw
+  exact ⟨hw, out, h1, h4⟩
+
 set_option maxRecDepth 100000 in
-/-- **Finding (C16/F3 class).** `TxMetadata.ReadFrom` accepts an `extra` attribute of 257 bytes
-(the only bound checked is the total `maxTxMetadataLen`), on which `Bytes()` panics
-(`extraAttribute.serialize` slices a `[258]byte` array to 259). -/
-theorem txmd_readable_extra_makes_bytes_panic :
-    ∃ bs md, txmdReadFrom bs = .ok md ∧ txmdBytes md = .error .panic :=
-  ⟨codeU8 1 :: 1 :: 1 :: List.replicate 257 0, { extra := some (List.replicate 257 0) },
-    by decide, by decide⟩
+/-- The former finding (C16/F3 class): an `extra` attribute of 257 bytes, which fits
+`maxTxMetadataLen` but on which `Bytes()` would panic (`extraAttribute.serialize` slices a
+`[258]byte` array to 259), is rejected by `ReadFrom`; 256 bytes, the maximum `WithExtra` allows,
+are still read. -/
+theorem txmd_long_extra_rejected :
+    txmdReadFrom (codeU8 1 :: 1 :: 1 :: List.replicate 257 0) = .error .corrupted ∧
+    txmdBytes { extra := some (List.replicate 257 0) } = .error .panic ∧
+    txmdReadFrom (codeU8 1 :: 1 :: 0 :: List.replicate 256 7) = .ok { extra := some (List.replicate 256 7) } :=
+  ⟨by decide, by decide, by decide⟩
+
+/-- The former findings `TxMetadata.ReadFrom([1,0,5,0xaa])` (declared length beyond the buffer)
+and the version-1 header with a short tail are rejected. -/
+theorem txmd_overrun_rejected : txmdReadFrom [1, 0, 5, 0xaa] = .error .corrupted := by decide
 
 -- =============================================================== non-vacuity
 
